@@ -629,6 +629,11 @@ pub fn check_fuzz_text(text: &str) -> Result<(), String> {
     if m.gates.iter().any(|g| !printable.contains(&g.k)) {
         return Ok(());
     }
+    // a program without any qubit prints as `qreg q[0];`, which is not OpenQASM; the property is
+    // about circuits on at least one qubit
+    if m.n == 0 {
+        return Ok(());
+    }
     if m.gates.iter().any(|g| g.qs.iter().any(|&q| q >= m.n)) {
         return Err(format!("accepted a gate on a qubit outside the {} declared qubits", m.n));
     }
